@@ -123,6 +123,7 @@ package logdb
 //@ extern github.com/lni/dragonboat/v4/internal/logdb/kv (s IKVStore) CommitWriteBatch
 //@ ghostset gIOFailed := old(gIOFailed) || result != nil
 //@ ghostset gBatchCommits := old(gBatchCommits) + ite(result == nil, 1, 0)
+//@ ghostset gMaxIdxRecGone := old(gMaxIdxRecGone) || (result == nil && gRecMaxIndex == 2)
 //@ extern github.com/lni/dragonboat/v4/internal/logdb/kv (s IKVStore) SaveValue
 //@ ghostset gIOFailed := old(gIOFailed) || result != nil
 //@ extern github.com/lni/dragonboat/v4/internal/logdb/kv (s IKVStore) DeleteValue
@@ -145,30 +146,42 @@ package logdb
 
 // gSnapPuts: number of snapshot records put into a write batch so far
 //@ ghost var gSnapPuts int
+//@ ghost var gLastSnapPut int
 //@ func (r *db) saveSnapshot [C10 C20 C09]
 //@ noframe
-//@ modifies gIOFailed, gRecSnapshot, gSnapPuts
+//@ modifies gIOFailed, gRecSnapshot, gSnapPuts, gLastSnapPut
 //@ ghostset gSnapPuts := old(gSnapPuts) + ite(result == nil && ud.Snapshot.Index != 0, 1, 0)
+//@ ghostset gLastSnapPut := ite(result == nil && ud.Snapshot.Index != 0, ud.Snapshot.Index, old(gLastSnapPut))
 //@ ensures gIOFailed && !old(gIOFailed) ==> result != nil
 //@ ensures old(gIOFailed) ==> gIOFailed
 //@ ghostset gRecSnapshot := ite(result == nil && ud.Snapshot.Index != 0 && ud.Snapshot.Index == gSnapIndex, 1, old(gRecSnapshot))
 
 //@ func (r *db) saveState [C10]
 //@ trusted writes into the in-memory write batch only (no store I/O)
-//@ func (r *db) setMaxIndex [C10]
-//@ trusted writes into the in-memory write batch only (no store I/O)
-// recording entries cannot report an error, so a storage error met while recording (the batched
-// format reads the stored batch back to merge with it) must fail-stop, never be absorbed
-//@ func (r *db) saveEntries [C10]
+// the recorded end of a replica's log: the cache AND the write batch get the new max index
+//@ func (r *db) setMaxIndex [C10 C09]
 //@ noframe
 //@ nobounds
-//@ modifies gIOFailed
+//@ modifies gRecMaxIndex, gMaxIdxPuts, gLastMaxIdxPut
+//@ ensures gMaxIdxPuts == old(gMaxIdxPuts) + 1 && gLastMaxIdxPut == maxIndex && gIOFailed == old(gIOFailed)
+// recording entries cannot report an error, so a storage error met while recording (the batched
+// format reads the stored batch back to merge with it) must fail-stop, never be absorbed
+//@ func (r *db) saveEntries [C10 C09]
+//@ noframe
+//@ nobounds
+//@ modifies gIOFailed, gMaxIdxPuts, gLastMaxIdxPut, gRecMaxIndex
 //@ ensures gIOFailed == old(gIOFailed)
 //@ loop 1 invariant gIOFailed == old(gIOFailed)
+// C09 (never an entry past the logical end, none missing before it): the max-index record written for
+// an update that saves entries is the index of ITS last entry
+//@ loop 1 step len(ud.EntriesToSave) > 0 && ud.EntriesToSave[len(ud.EntriesToSave)-1].Index > 0 && contig(ud.EntriesToSave) ==> gLastMaxIdxPut == ud.EntriesToSave[len(ud.EntriesToSave)-1].Index [C09]
 
+//@ pred contig(ents []pb.Entry) := forall i int :: 0 <= i && i + 1 < len(ents) ==> ents[i+1].Index == ents[i].Index + 1
 //@ iface (em entryManager) record
-//@ ensures true
+//@ ensures len(entries) > 0 && contig(entries) ==> result == entries[len(entries)-1].Index
 
+// (the "result is the last entry's index" clause of the interface contract is proved for the plain
+// format only; here the scratch batch of the context may alias the input in the model -- assumed)
 //@ func (be *batchedEntries) record [C10]
 //@ noframe
 //@ nobounds
@@ -202,12 +215,14 @@ package logdb
 //@ modifies gIOFailed
 //@ ensures gIOFailed == old(gIOFailed)
 
-//@ func (pe *plainEntries) record [C10]
+//@ func (pe *plainEntries) record [C10 C09]
 //@ noframe
 //@ nobounds
 //@ requires ctx != nil
 //@ ensures gIOFailed == old(gIOFailed)
+//@ ensures len(entries) > 0 && contig(entries) ==> result == entries[len(entries)-1].Index [C09]
 //@ loop 1 invariant gIOFailed == old(gIOFailed)
+//@ loop 1 invariant 0 <= idx && idx <= len(entries) && (idx == 0 ==> maxIndex == 0) && (idx > 0 && contig(entries) ==> maxIndex == entries[idx-1].Index) [C09]
 
 // helpers without store I/O
 //@ func (p *keyPool) get [C10]
@@ -249,11 +264,16 @@ package logdb
 //@ trusted in-memory cache bookkeeping
 
 // If the underlying storage reports an error during a save, the save fails: it never returns success
-//@ func (r *db) saveRaftState [C10 C04]
+// C09 (correct length after a snapshot record): whenever a snapshot record goes into the batch, a
+// max-index record carrying that snapshot's index goes into the same batch -- on reopen the cache is
+// gone and the recorded end is all there is
+//@ func (r *db) saveRaftState [C10 C04 C09]
 //@ noframe
-//@ modifies gIOFailed
+//@ modifies gIOFailed, gSnapPuts, gLastSnapPut, gMaxIdxPuts, gLastMaxIdxPut, gRecMaxIndex, gRecSnapshot
 //@ ensures gIOFailed && !old(gIOFailed) ==> result != nil
 //@ loop 1 invariant gIOFailed == old(gIOFailed)
+//@ loop 1 invariant gSnapPuts - old(gSnapPuts) <= gMaxIdxPuts - old(gMaxIdxPuts) && gSnapPuts >= old(gSnapPuts) [C09]
+//@ loop 1 invariant gSnapPuts > old(gSnapPuts) ==> gLastMaxIdxPut == gLastSnapPut [C09]
 
 // C09 (newest snapshot record): a batch of updates may carry snapshots for several replicas; when the
 // call reports success, every snapshot record that was put into the write batch has been committed
@@ -285,10 +305,16 @@ package logdb
 //@ trusted five-line body: marshals the state and puts it into the batch
 //@ modifies gRecState
 //@ ghostset gRecState := 1
-//@ func (r *db) saveMaxIndex [C20]
+// gMaxIdxPuts / gLastMaxIdxPut: number of max-index records put into a write batch so far, and the
+// index carried by the last one
+//@ ghost var gMaxIdxPuts int
+//@ ghost var gLastMaxIdxPut int
+//@ func (r *db) saveMaxIndex [C20 C09]
 //@ trusted puts the max index record into the batch
-//@ modifies gRecMaxIndex
+//@ modifies gRecMaxIndex, gMaxIdxPuts, gLastMaxIdxPut
 //@ ghostset gRecMaxIndex := 1
+//@ ghostset gMaxIdxPuts := old(gMaxIdxPuts) + 1
+//@ ghostset gLastMaxIdxPut := index
 //@ func (r *db) saveRemoveNodeData [C20]
 //@ trusted deletes the state, bootstrap and max index records and the listed snapshot records from the batch
 //@ modifies gRecState, gRecBootstrap, gRecMaxIndex, gRecSnapshot
@@ -374,7 +400,7 @@ package logdb
 // a storage error is never turned into success
 //@ func (r *cache) getMaxIndex [C10]
 //@ trusted in-memory cache bookkeeping
-//@ func (r *cache) setMaxIndex [C10]
+//@ func (r *cache) setMaxIndex [C10 C09]
 //@ trusted in-memory cache bookkeeping
 //@ func (r *cache) setSnapshotIndex [C10]
 //@ trusted in-memory cache bookkeeping
@@ -453,25 +479,39 @@ package logdb
 //@ modifies gIOFailed
 //@ ensures gIOFailed && !old(gIOFailed) ==> result2 != nil
 
+// C10 (an interrupted operation is completely visible or completely absent; the recovered log ends
+// where its recorded end says): removing a replica deletes its state, bootstrap, max-index and snapshot
+// records in ONE committed batch, and its entries go only after that -- an interruption in between
+// leaves a replica that is simply absent, never a recorded end without entries
 //@ func (r *db) removeNodeData [C10]
 //@ noframe
 //@ nobounds
-//@ modifies gIOFailed, gRecSnapshot, gRecBootstrap, gRecState, gRecMaxIndex, gBatchCommits
+//@ free requires !gAllRemovedEarly && !gMaxIdxRecGone && gRecMaxIndex == 0
+//@ modifies gIOFailed, gRecSnapshot, gRecBootstrap, gRecState, gRecMaxIndex, gBatchCommits, gMaxIdxRecGone, gAllRemovedEarly, gRangedTo
 //@ ensures gIOFailed && !old(gIOFailed) ==> result != nil
+//@ ensures !gAllRemovedEarly
+//@ ensures result == nil ==> gMaxIdxRecGone && gRecState == 2 && gRecBootstrap == 2 && gBatchCommits == old(gBatchCommits) + 1 && gRangedTo == 18446744073709551615
 
 // removal / compaction run the store operation inside a callback handed to the entry manager
 // gRangedTo: the index bound the entry manager was last asked to operate up to
 //@ ghost var gRangedTo int
+// gMaxIdxRecGone: a batch deleting the replica's max-index (and state) record has been committed;
+// gAllRemovedEarly: all entries of a replica (bound 2^64-1) were handed to the store for removal while
+// its max-index record was still there
+//@ ghost var gMaxIdxRecGone bool
+//@ ghost var gAllRemovedEarly bool
 //@ iface (em entryManager) rangedOp
-//@ modifies gIOFailed, gRangedTo
+//@ modifies gIOFailed, gRangedTo, gAllRemovedEarly
 //@ ghostset gRangedTo := index
+//@ ghostset gAllRemovedEarly := old(gAllRemovedEarly) || (index == 18446744073709551615 && !gMaxIdxRecGone)
 //@ ensures gIOFailed && !old(gIOFailed) ==> result != nil
 // C09: removal up to an index hands the entry manager exactly that bound -- in particular the
 // "remove everything" call of RemoveNodeData (index = 2^64-1) must not wrap around to nothing
 //@ func (r *db) removeEntriesTo [C10 C09]
 //@ noframe
 //@ nobounds
-//@ modifies gIOFailed, gRangedTo
+//@ modifies gIOFailed, gRangedTo, gAllRemovedEarly
+//@ ensures gAllRemovedEarly == (old(gAllRemovedEarly) || (index == 18446744073709551615 && !gMaxIdxRecGone))
 //@ ensures gIOFailed && !old(gIOFailed) ==> result != nil
 //@ ensures gRangedTo == index
 //@ func (r *db) compact [C10]
